@@ -1,1 +1,188 @@
-From VMem Require Import Pmc.
+(** C19 — page migration preserves page contents; completion is reported
+    exactly once; requests arriving meanwhile are served afterwards.
+    Statements only; the proofs are in VMem.PmcProofs (controller pair) and
+    VDrv.MigrationProofs (driver side).
+
+    The system ([VMem.Pmc]): two page-migration controllers A and B, each a
+    transcription of pmc.go with its three capacity-1 akita ports; the memories
+    of the two GPUs; a network between the remote ports; per memory a list of
+    requests that arrived and a list of replies on their way back.
+    [run (s_init ...) evs] ranges over every finite sequence of environment
+    events: ticks of either controller in any interleaving, transfers out of
+    port buffers (or none: arbitrary delay), deliveries of ANY pending network
+    message / memory reply (arbitrary reordering) that the destination buffer
+    may refuse (back-pressure), memory serving ANY pending request, migration
+    requests offered to A's control port at any time, completions taken at any
+    time.  [ok_ev] is the only restriction: requests go to A (one puller per
+    source at a time - the driver keeps one PageMigrationReqToCP in flight),
+    name B as the page's owner, have a page size that is a multiple of the
+    64-byte transfer unit and a sender the completion can be returned to; and
+    no third party talks on the network.  Port names are arbitrary but distinct
+    where akita requires it. *)
+From VMem Require Import Pmc PmcLemmas PmcProofs.
+From VDrv Require Import Migration MigrationProofs.
+Open Scope N_scope.
+
+Section Names.
+Variables ra ca la ma rb cb lb mb : N.
+Variables sa0 sb0 : store.
+Hypothesis Hra : ra <> 0.
+Hypothesis Hrb : rb <> 0.
+Hypothesis Hrab : ra <> rb.
+Hypothesis Hma : ma <> 0 /\ ma <> la.
+Hypothesis Hmb : mb <> 0 /\ mb <> lb.
+
+Notation init := (s_init ra ca la ma rb cb lb mb sa0 sb0).
+Notation ok := (ok_ev ca rb).
+Notation copy := (copy_req sb0).
+
+(** [completed s]: the accepted requests for which a completion response has
+    been created (sent, or waiting for the control port).  Whenever A is not in
+    the middle of a transfer, A's memory is EXACTLY the initial memory with the
+    completed pages copied in order: inside each destination range the source
+    bytes as they were ([sb0]; B's memory never changes), every other byte
+    untouched.  During a transfer the only deviation is inside that page's
+    destination range, each byte still old or already new.  No panic. *)
+Theorem pmc_copies_page : forall evs, Forall ok evs ->
+  let s := run init evs in
+  crashed (pa s) = false /\ crashed (pb s) = false /\
+  (forall a, stb s a = sb0 a) /\
+  match cur_mig (pa s) with
+  | None => forall a, sta s a = fold_left copy (completed s) sa0 a
+  | Some r => forall a,
+      sta s a = fold_left copy (completed s) sa0 a \/
+      (mg_wr r <= a < mg_wr r + mg_size r /\ sta s a = sb0 (mg_rd r + (a - mg_wr r)))
+  end.
+Proof.
+  intros evs Hok s.
+  destruct (run_inv ra ca la ma rb cb lb mb sa0 sb0 Hra Hrb Hrab Hma Hmb evs _ Hok
+              (init_inv2 ra ca la ma rb cb lb mb sa0 sb0)) as [H _].
+  destruct (store_of_inv _ _ _ _ _ _ _ _ _ _ _ H) as [Hb Ha].
+  repeat split; try apply H; assumption.
+Qed.
+Print Assumptions pmc_copies_page.
+
+(** what [copy] does: destination range := source range, nothing else *)
+Theorem copy_req_spec : forall st r a,
+  (mg_wr r <= a < mg_wr r + mg_size r -> copy st r a = sb0 (mg_rd r + (a - mg_wr r))) /\
+  (a < mg_wr r \/ mg_wr r + mg_size r <= a -> copy st r a = st a).
+Proof. exact (copy_req_spec sb0). Qed.
+Print Assumptions copy_req_spec.
+
+(** The special case of one request: once its completion exists, the page has
+    arrived and nothing else moved, in either memory. *)
+Theorem pmc_copies_one_page : forall evs r, Forall ok evs ->
+  let s := run init evs in
+  g_acc s = [r] -> ndone s = 1%nat ->
+  (forall a, mg_wr r <= a < mg_wr r + mg_size r -> sta s a = sb0 (mg_rd r + (a - mg_wr r))) /\
+  (forall a, a < mg_wr r \/ mg_wr r + mg_size r <= a -> sta s a = sa0 a) /\
+  (forall a, stb s a = sb0 a).
+Proof.
+  intros evs r Hok s.
+  exact (one_page ra ca la ma rb cb lb mb sa0 sb0 Hra Hrb Hrab Hma Hmb evs r Hok).
+Qed.
+Print Assumptions pmc_copies_one_page.
+
+(** Completion responses: everything A ever put (or is about to put) on its
+    control port is exactly one response per completed request, in request
+    order, addressed to the request's sender; never more responses than
+    accepted requests; B reports nothing. *)
+Theorem pmc_completion_once : forall evs, Forall ok evs ->
+  let s := run init evs in
+  g_done s ++ ctl_out (pa s) ++ map MMigRsp (olist (to_ctrl (pa s))) =
+    map (fun r => MMigRsp (mkMigRsp ca (mg_src r))) (completed s) /\
+  length (completed s) = ndone s /\ (ndone s <= length (g_acc s))%nat /\
+  ctl_out (pb s) = [].
+Proof.
+  intros evs Hok s.
+  exact (completion_once ra ca la ma rb cb lb mb sa0 sb0 Hra Hrb Hrab Hma Hmb evs Hok).
+Qed.
+Print Assumptions pmc_completion_once.
+
+(** Requests are neither lost nor duplicated nor reordered: the accepted
+    requests are, in order, the completed ones, then the one being served (if
+    any), then those still waiting in the control port. *)
+Theorem pmc_requests_queue : forall evs, Forall ok evs ->
+  let s := run init evs in
+  exists waiting,
+    ctl_in (pa s) = map MMigReq waiting /\
+    g_acc s = completed s ++ olist (cur_mig (pa s)) ++ waiting.
+Proof.
+  intros evs Hok s.
+  exact (requests_queue ra ca la ma rb cb lb mb sa0 sb0 Hra Hrb Hrab Hma Hmb evs Hok).
+Qed.
+Print Assumptions pmc_requests_queue.
+
+End Names.
+
+(** ** Observations about the code, outside the property's premises *)
+
+(** The source side remembers ONE requester: every pull request overwrites
+    [requestingPMCtrlPort], and data read for earlier requests is then sent to
+    the latest requester.  With the driver's one-request-at-a-time handshake
+    there is one puller per source, which the theorems assume. *)
+Theorem requester_is_overwritten : forall p q rest,
+  rem_in p = MPullReq q :: rest ->
+  requester (fst (processFromOutside p)) = pq_src q.
+Proof. exact requester_overwritten. Qed.
+Print Assumptions requester_is_overwritten.
+
+(** Witness on the model (the same schedule is corpus case misroute.json and
+    behaves identically on the real controllers): a third controller's pull
+    request reaches B while A's migration is in flight; B's answer to A's
+    request is addressed to the third party (port 11), and A never completes. *)
+Example misrouting_witness :
+  let s := run (std_sys (gen_store 3 1) (gen_store 5 2)) misroute_schedule in
+  exists p, In (MPullRsp p) (net s) /\ pr_id p = (RA, 0) /\ pr_dst p = 11 /\
+            g_done s = [] /\ cur_mig (pa s) <> None.
+Proof. exact misroute_ok. Qed.
+
+(** A page size below the transfer unit (including 0) generates no pull request
+    and the controller stays busy forever; the property excludes such sizes. *)
+Example small_page_hangs :
+  let s := run (std_sys (gen_store 3 1) (gen_store 5 2))
+               (ECtrlReq PA (mkMigReq CP_A CA 0 0 RB 32) :: repeat_ev 50 demo_round) in
+  handling (pa s) = true /\ g_done s = [] /\ to_pull (pa s) = [] /\ net s = [].
+Proof. vm_compute. repeat split; reflexivity. Qed.
+
+(** ** Non-vacuity: a concrete schedule satisfies the premises and completes *)
+Example demo_completes :
+  let s := run (std_sys (gen_store 3 1) (gen_store 5 2)) demo_schedule in
+  Forall (ok_ev CA RB) demo_schedule /\
+  g_done s = [MMigRsp (mkMigRsp CA CP_A); MMigRsp (mkMigRsp CA CP_A)] /\
+  length (g_acc s) = 2%nat /\ cur_mig (pa s) = None /\
+  read (sta s) 2048 128 = read (gen_store 5 2) 1024 128 /\
+  read (sta s) 4096 64 = read (gen_store 5 2) 64 64.
+Proof. exact demo_ok. Qed.
+
+(** ** Driver side: Driver.preparePageForMigration *)
+
+(** The virtual page is re-homed to a fresh physical page of the target
+    device, marked migrating; the old physical address is returned; every
+    other mapping of the page table, and every other device's allocator, is
+    unchanged; the fresh page does not overlap any page handed out before. *)
+Theorem migration_updates_only_target : forall d pid va gpu pg,
+  pt_find (d_pt d) pid va = Some pg ->
+  dev_can_alloc d (gpu + 1) = true ->
+  match prepare_page_for_migration d pid va gpu with
+  | None => False
+  | Some (d', newpage, old) =>
+    old = pg_paddr pg /\
+    pt_find (d_pt d') pid va = Some newpage /\
+    pg_device newpage = gpu + 1 /\ pg_migrating newpage = true /\
+    pg_vaddr newpage = va /\ pg_pid newpage = pid /\
+    fresh_page d (gpu + 1) (pg_paddr newpage) /\
+    (forall pid' va', (pid', va') <> (pid, va) -> pt_find (d_pt d') pid' va' = pt_find (d_pt d) pid' va') /\
+    (forall dev, dev <> gpu + 1 -> d_alloc d' dev = d_alloc d dev)
+  end.
+Proof. exact migration_only_target. Qed.
+Print Assumptions migration_updates_only_target.
+
+(** The driver keeps at most one page request in flight (sendMigrationReqToCP /
+    processPageMigrationRspFromCP): the premise "one puller per source". *)
+Theorem driver_one_request_in_flight : forall evs,
+  let d := drv_run drv_init evs in
+  (dq_inflight d <= 1)%nat /\
+  (dq_inflight d = 1%nat <-> dq_busy d = true).
+Proof. exact one_in_flight. Qed.
+Print Assumptions driver_one_request_in_flight.
